@@ -271,6 +271,11 @@ func (p *c02) world(r *core.Rand, sched c02Schedule) (*c02World, error) {
 	for n := range must {
 		w.entries = append(w.entries, n+".twig")
 	}
+	// built-ins that draw on process-wide state (random source, clock, regular-expression and date machinery) with an
+	// output that does not depend on what they draw
+	w.srcs["stateful"] = c02Marker("stateful") + "{{ random(100) < 100 ? 'r' : 'x' }}{{ random() >= 0 ? 'r' : 'x' }}{{ random(3, 9) > 2 ? 'r' : 'x' }}{{ random(['a', 'a']) }}" +
+		"{{ 'now'|date('Y') > 2000 ? 'd' : 'x' }}{{ date('now') ? 'd' : 'x' }}{{ 'abc' matches '/^a.c$/' ? 'm' : 'x' }}{{ '2024-03-05'|date('Y-m-d') }}{{ [3, 1, 2]|sort|join }}{{ 'a,b'|split(',')|length }}{{ v }}"
+	w.entries = append(w.entries, "stateful", "stateful")
 	sort.Strings(w.entries)
 	w.regNames = []string{"reg0", "reg1"}
 	// in every other world the loader has the names that the registration clients write (version 0): the first renders
